@@ -168,7 +168,9 @@ class Lexer:
                 else:
                     # Unknown escape - just use the character
                     result.append(escape)
-            elif ch == "\n":
+            elif ch in ("\n", "\r"):
+                # a raw LF or CR ends the line: only a LineContinuation
+                # (backslash first) may carry a literal over it
                 raise JSSyntaxError(
                     "Unterminated string literal", self.line, self.column
                 )
